@@ -201,6 +201,11 @@ def factoryObj (factory : Factory) (keyLength : Nat) : Except String CipherObj :
 def prfParams (s : Nat) : Digest × Nat :=
   if isIn s sha384PrfSuites then (.sha384, 48) else (.sha256, 32)
 
+/-- RecordLayer._calcTLS1_3KeyUpdate: hash (and secret length) used for "traffic upd" and for the
+    keys of the next generation -/
+def prfAfterKeyUpdate (s : Nat) : Digest × Nat :=
+  if isIn s sha384PrfSuites then (.sha384, 48) else (.sha256, 32)
+
 /-- the PRF function `calc_key` selects (mathtls.py) for "key expansion"/"master secret" -/
 def calcKeyPrf (v : Ver) (s : Nat) : Except String PrfFn :=
   if v == (3, 0) then .ok .PRF_SSL
@@ -660,6 +665,9 @@ structure Obs where
   macLen : Nat
   tagLen : Nat
   prf : PrfKind
+  /-- TLS 1.3: hash with which a KeyUpdate derives the next traffic secret and its keys (`none` below
+      TLS 1.3, where there is no KeyUpdate) -/
+  prfKeyUpdate : Option PrfKind
   /-- `Session.getCipherName()` -/
   sessionCipherName : Option CName
   /-- `Session.getMacName()`; `none` when there is no HMAC (AEAD) -/
@@ -674,6 +682,7 @@ def Obs.agree (a b : Obs) : Bool :=
   a.kex == b.kex && a.certified == b.certified && a.ske == b.ske && a.certKinds == b.certKinds &&
   a.cipher == b.cipher && a.keyLen == b.keyLen && a.mode == b.mode && a.ivLen == b.ivLen &&
   a.mac == b.mac && a.macLen == b.macLen && a.tagLen == b.tagLen && a.prf == b.prf &&
+  a.prfKeyUpdate == b.prfKeyUpdate &&
   a.sessionCipherName == b.sessionCipherName && a.sessionMacName == b.sessionMacName &&
   a.connCipherName == b.connCipherName
 
@@ -747,6 +756,12 @@ def modelObs (s : Nat) (v : Ver) (r : Role) : Option Obs := do
   let ivLen := if tls13 then 12 else cs.ivLength
   let prf ← if tls13 then prfOfDigest (prfParams s).1
             else (exceptToOption (calcKeyPrf v s)).map prfOfFn
+  -- secret length and hash must go together (HKDF-Expand-Label output = hash length)
+  let ku ← if tls13 then
+             (let p := prfAfterKeyUpdate s
+              if (p.1 == .sha384 && p.2 == 48) || (p.1 == .sha256 && p.2 == 32)
+              then (prfOfDigest p.1).map some else none)
+           else some none
   let (kex, certified, ske) ←
     if tls13 then some (Kex.tls13, true, false)
     else match r with
@@ -778,7 +793,7 @@ def modelObs (s : Nat) (v : Ver) (r : Role) : Option Obs := do
   some { kex := kex, certified := certified, ske := ske,
          certKinds := modelCertKinds s,
          cipher := ciph, keyLen := cs.keyLength, mode := mode, ivLen := ivLen,
-         mac := mac, macLen := macLen, tagLen := tag, prf := prf,
+         mac := mac, macLen := macLen, tagLen := tag, prf := prf, prfKeyUpdate := ku,
          sessionCipherName := canonicalCipherName s,
          sessionMacName := canonicalMacName s,
          connCipherName := obj.map (·.name) }
@@ -901,6 +916,9 @@ def specObs (sem : SuiteSem) (v : Ver) : Option Obs := do
          cipher := sem.cipher, keyLen := sem.keyLen, mode := sem.mode, ivLen := specIvLen sem v,
          mac := sem.mac, macLen := (sem.mac.map hashLen).getD 0, tagLen := sem.tagLen,
          prf := specPrf sem v,
+         -- RFC 8446 §7.2: application_traffic_secret_N+1 = HKDF-Expand-Label(secret_N, "traffic upd", "",
+         -- Hash.length) with the hash of the suite
+         prfKeyUpdate := if Ver.le (3, 4) v then some (specPrf sem v) else none,
          sessionCipherName := some cname,
          sessionMacName := specMacName sem,
          connCipherName := conn }
@@ -995,7 +1013,7 @@ def Obs.render (o : Obs) : String :=
   s!"kex={o.kex.str} certified={boolStr o.certified} ske={boolStr o.ske} " ++
   s!"certKinds={",".intercalate (o.certKinds.map CertKind.str)} " ++
   s!"cipher={o.cipher.str} keyLen={o.keyLen} mode={o.mode.str} ivLen={o.ivLen} mac={optStr Hash.str o.mac} " ++
-  s!"macLen={o.macLen} tagLen={o.tagLen} prf={o.prf.str} sessCipher={optStr CName.str o.sessionCipherName} " ++
+  s!"macLen={o.macLen} tagLen={o.tagLen} prf={o.prf.str} prfKeyUpdate={optStr PrfKind.str o.prfKeyUpdate} sessCipher={optStr CName.str o.sessionCipherName} " ++
   s!"sessMac={optStr MName.str o.sessionMacName} connCipher={optStr CName.str o.connCipherName}"
 
 def SuiteSem.render (m : SuiteSem) : String :=
